@@ -85,6 +85,8 @@ InvalidDocs ==
                                                               El(CAL, "filter", << >>, <<CompFDoc(Q0.filter)>>)>>) : v \in {"baddate", "20210301"}})
   \cup K("allprop with prop", {El(CAL, "calendar-query", << >>, <<El(DAV, "prop", << >>, <<El(CAL, "calendar-data", << >>, <<El(CAL, "comp", <<At("name", "VCALENDAR")>>, <<El(CAL, "allprop", << >>, << >>), El(CAL, "prop", <<At("name", "n1")>>, << >>)>>)>>)>>),
                                                                      El(CAL, "filter", << >>, <<CompFDoc(Q0.filter)>>)>>)})
+  \cup K("multiget allprop with prop", {El(CAL, "calendar-multiget", << >>, <<El(DAV, "prop", << >>, <<El(CAL, "calendar-data", << >>, <<El(CAL, "comp", <<At("name", "VCALENDAR")>>, <<El(CAL, "allprop", << >>, << >>), El(CAL, "prop", <<At("name", "n1")>>, << >>)>>)>>)>>),
+                                                                     El(DAV, "href", << >>, <<Txt("h1")>>)>>)})
   \cup K("allcomp with comp", {El(CAL, "calendar-query", << >>, <<El(DAV, "prop", << >>, <<El(CAL, "calendar-data", << >>, <<El(CAL, "comp", <<At("name", "VCALENDAR")>>, <<El(CAL, "allcomp", << >>, << >>), El(CAL, "comp", <<At("name", "VEVENT")>>, << >>)>>)>>)>>),
                                                                      El(CAL, "filter", << >>, <<CompFDoc(Q0.filter)>>)>>)})
 
